@@ -11,13 +11,25 @@ RANGES = {"u8": (0, 2**8 - 1), "u16": (0, 2**16 - 1), "u32": (0, 2**32 - 1), "u6
           "bool": (0, 1)}
 
 
+def _anon(t):
+    """Term with the ids of recursion markers erased: a loop-carried value read through a temporary
+    (`x = x + 1`) and read directly (`x += 1`) differ only in which local closes the cycle."""
+    if isinstance(t, tuple):
+        if len(t) == 2 and t[0] == "rec":
+            return ("rec",)
+        return tuple(_anon(x) for x in t)
+    if isinstance(t, list):
+        return [_anon(x) for x in t]
+    return t
+
+
 def ival(crate, t, env=None, depth=0):
     """env: list of (term, (lo, hi)) pairs giving intervals of opaque sub-terms (loop counters, parameters)."""
     env = env or []
     if depth > 40:
         return None
     for (et, iv) in env:
-        if et == t:
+        if et == t or (et[0] == t[0] == "phi" and _anon(et) == _anon(t)):
             return iv
     k = t[0]
     if k == "const":
